@@ -342,6 +342,10 @@ void Notification::BeginExecuteNotification(NotificationType type, const CheckRe
 					SetNoMoreNotifications(false);
 			}
 
+			/* Likewise the incident is over, even if nobody is told: forget who was notified about the problem. */
+			if (type == NotificationRecovery)
+				GetNotifiedProblemUsers()->Clear();
+
 			return;
 		}
 
